@@ -2,7 +2,7 @@
 //! specification allows) are framed as Confluent messages and decoded by the real arrow-avro Decoder; the decoded
 //! row, projected to an Avro value, must be the value TLC wrote.  Nothing is decided here beyond JSON equality.
 use crate::avro::avro_value;
-use arrow_array::StructArray;
+use arrow_array::{Array, StructArray};
 use arrow_avro::reader::ReaderBuilder;
 use arrow_avro::schema::{AvroSchema, Fingerprint, FingerprintAlgorithm, SchemaStore};
 use vcore::{json, Value};
